@@ -601,7 +601,8 @@ func (hs *clientHandshakeStateTLS13) establishHandshakeKeys() error {
 		}
 		ecdhePeerData = hs.serverHello.serverShare.data[:x25519PublicKeySize]
 	}
-	sharedKey, err := getSharedKey(ecdhePeerData, hs.keyShareKeys.ecdhe)
+	// the key of the share the server selected, not always that of the first one sent
+	sharedKey, err := getSharedKey(ecdhePeerData, hs.keyShareKeys.ecdheKeyFor(hs.serverHello.serverShare.group))
 	// [uTLS] SECTION END
 	if err != nil {
 		c.sendAlert(alertIllegalParameter)
